@@ -124,18 +124,18 @@ theorem splitAt_zero_fst (d : Bytes) :
       rw [List.takeWhile_cons_of_pos (by simpa using hb), ← ih]
       cases splitAt? [(0 : UInt8)] bs <;> rfl
 
-theorem null_terminated_bytes_eq (data : Bytes) :
+theorem gen_null_terminated_bytes_proof (data : Bytes) :
     Gen.PyBeacon.null_terminated_bytes (.bytes data) = .ok (.bytes (C03.nullTerminatedBytes data)) := by
   simp only [Gen.PyBeacon.null_terminated_bytes, partition, List.isEmpty_cons, Bool.false_eq_true, if_false]
   rw [← splitAt_zero_fst]
   cases splitAt? [(0 : UInt8)] data <;> rfl
 
-theorem null_terminated_str_eq (data : Bytes) :
+theorem gen_null_terminated_str_proof (data : Bytes) :
     Gen.PyBeacon.null_terminated_str (.bytes data) = .ok (encLatin (C03.nullTerminatedStr data)) := by
-  simp only [Gen.PyBeacon.null_terminated_str, null_terminated_bytes_eq, PyRt.ok_bind, decodeLatin1]
+  simp only [Gen.PyBeacon.null_terminated_str, gen_null_terminated_bytes_proof, PyRt.ok_bind, decodeLatin1]
   rfl
 
-theorem parse_pivot_frame_eq (data : Bytes) :
+theorem gen_parse_pivot_frame_proof (data : Bytes) :
     Gen.PyBeacon.parse_pivot_frame (.bytes data) = .ok (.bytes (C03.parsePivot data)) := by
   simp only [Gen.PyBeacon.parse_pivot_frame, newBytesIO_bytes, PyRt.ok_bind, read_mk, rdInt2, u16be_bytes, PyU.sub, ints2, asInt,
     Except.map, C03.parsePivot, pure_ok]
@@ -149,7 +149,7 @@ theorem isEmpty_false {α : Type} {l : List α} (h : ¬ l = []) : l.isEmpty = fa
   | nil => exact absurd rfl h
   | cons _ _ => rfl
 
-theorem parse_injt_eq (data : Bytes) :
+theorem gen_parse_process_injection_transform_steps_proof (data : Bytes) :
     Gen.PyBeacon.parse_process_injection_transform_steps (.bytes data)
       = .ok (.list ((C03.parseInjTransform data).map encInj)) := by
   simp only [Gen.PyBeacon.parse_process_injection_transform_steps, newBytesIO_bytes, PyRt.ok_bind, read_mk, rdInt4, truthy_bytes,
@@ -185,7 +185,7 @@ theorem eq_pair_zero (a b : Nat) :
 
 /-! ### parse_gargle -/
 
-theorem gargle_loop (n : Nat) : ∀ (pre s : Bytes) (acc : List V) (fuel : Nat),
+theorem gen_parse_gargle_loop (n : Nat) : ∀ (pre s : Bytes) (acc : List V) (fuel : Nat),
     s.length ≤ n → n < fuel →
     ∃ p', whileFuel fuel Gen.PyBeacon.parse_gargle_loop1 (.list acc, mk pre s)
       = .ok (.list (acc ++ (C03.parseGargle s).map lit), p') := by
@@ -223,9 +223,9 @@ theorem gargle_loop (n : Nat) : ∀ (pre s : Bytes) (acc : List V) (fuel : Nat),
         rw [← hp']
         simp only [C03.fmtRange, lit, cps_append, List.append_assoc]
 
-theorem parse_gargle_eq (fuel : Nat) (data : Bytes) (h : data.length < fuel) :
+theorem gen_parse_gargle_proof (fuel : Nat) (data : Bytes) (h : data.length < fuel) :
     Gen.PyBeacon.parse_gargle fuel (.bytes data) = .ok (.list ((C03.parseGargle data).map lit)) := by
-  obtain ⟨p', hp'⟩ := gargle_loop data.length [] data [] fuel (Nat.le_refl _) h
+  obtain ⟨p', hp'⟩ := gen_parse_gargle_loop data.length [] data [] fuel (Nat.le_refl _) h
   simp only [Gen.PyBeacon.parse_gargle, newBytesIO_bytes, PyRt.ok_bind, hp', pure_ok, List.nil_append]
 
 /-! ### cstruct enums -/
@@ -250,7 +250,7 @@ theorem fmt_dec_int (n : Int) : fmt (.int n) "" = .ok (decStr n) := by simp [fmt
 
 /-! ### parse_recover_binary -/
 
-theorem recover_loop (n : Nat) : ∀ (pre s : Bytes) (acc : List V) (fuel : Nat),
+theorem gen_parse_recover_binary_loop (n : Nat) : ∀ (pre s : Bytes) (acc : List V) (fuel : Nat),
     s.length ≤ n → n < fuel →
     ∃ p', whileFuel fuel Gen.PyBeacon.parse_recover_binary_loop1 (.list acc, mk pre s)
       = .ok (.list (acc ++ (C03.parseRecover s).map encROut), p') := by
@@ -282,20 +282,393 @@ theorem recover_loop (n : Nat) : ∀ (pre s : Bytes) (acc : List V) (fuel : Nat)
       rw [whileFuel, Gen.PyBeacon.parse_recover_binary_loop1]
       simp only [read_mk, rdInt4, PyRt.ok_bind, truthy_bytes, u32be_bytes,
         isEmpty_false h4, Bool.not_false, Bool.not_true, Bool.false_eq_true, if_false]
-      trace_state
-      simp only [m1, m2, m3, m4, m8, m11, m13, m15, PyRt.ok_bind, eq_int_enum, int_beq_nat, append_list, pure_ok, fmt_dec_int,
-        read_mk, rdInt4, u32be_bytes]
+      simp only [m1, m2, m3, m4, m8, m11, m13, m15, PyRt.ok_bind, eq_int_enum, int_beq_nat, append_list, fmt_dec_int, pure_ok]
       rw [C03.parseRecover]
       simp only [h4, dite_false, a1, a2, a3, a4, a8, a11, a13, a15, Option.some_beq_some]
       have e0 : PyU.eq (V.int ((C03.u32be (List.take 4 s) : Nat) : Int)) (V.int 0) = (C03.u32be (List.take 4 s) == 0) := by
         simp only [PyU.eq]; exact int_beq_nat _ 0
       simp only [e0, beq_iff_eq]
-      split_ifs <;>
-        first
-        | exact ⟨_, rfl⟩
-        | (simp only [List.map_cons, encROut, encRVal]
-           rw [List.append_cons]
-           exact ih _ _ _ f (by simp only [List.length_drop]; omega) hf')
-        | exact ih _ _ _ f (by simp only [List.length_drop]; omega) hf'
+      generalize C03.u32be (List.take 4 s) = v
+      by_cases c1 : v = 1
+      · simp only [c1, if_true]
+        simp only [List.map_cons, encROut, encRVal]
+        conv => arg 1; intro p'; rhs; rw [List.append_cons]
+        exact ih _ _ _ f (by simp only [List.length_drop]; omega) hf'
+      simp only [c1, if_false]
+      by_cases c2 : v = 2
+      · simp only [c2, if_true]
+        simp only [List.map_cons, encROut, encRVal]
+        conv => arg 1; intro p'; rhs; rw [List.append_cons]
+        exact ih _ _ _ f (by simp only [List.length_drop]; omega) hf'
+      simp only [c2, if_false]
+      by_cases c3 : v = 3
+      · simp only [c3, if_true]
+        simp only [List.map_cons, encROut, encRVal]
+        conv => arg 1; intro p'; rhs; rw [List.append_cons]
+        exact ih _ _ _ f (by simp only [List.length_drop]; omega) hf'
+      simp only [c3, if_false]
+      by_cases c4 : v = 4
+      · simp only [c4, if_true]
+        simp only [List.map_cons, encROut, encRVal]
+        conv => arg 1; intro p'; rhs; rw [List.append_cons]
+        exact ih _ _ _ f (by simp only [List.length_drop]; omega) hf'
+      simp only [c4, if_false]
+      by_cases c8 : v = 8
+      · simp only [c8, if_true]
+        simp only [List.map_cons, encROut, encRVal]
+        conv => arg 1; intro p'; rhs; rw [List.append_cons]
+        exact ih _ _ _ f (by simp only [List.length_drop]; omega) hf'
+      simp only [c8, if_false]
+      by_cases c11 : v = 11
+      · simp only [c11, if_true]
+        simp only [List.map_cons, encROut, encRVal]
+        conv => arg 1; intro p'; rhs; rw [List.append_cons]
+        exact ih _ _ _ f (by simp only [List.length_drop]; omega) hf'
+      simp only [c11, if_false]
+      by_cases c13 : v = 13
+      · simp only [c13, if_true]
+        simp only [List.map_cons, encROut, encRVal]
+        conv => arg 1; intro p'; rhs; rw [List.append_cons]
+        exact ih _ _ _ f (by simp only [List.length_drop]; omega) hf'
+      simp only [c13, if_false]
+      by_cases c15 : v = 15
+      · simp only [c15, if_true]
+        simp only [List.map_cons, encROut, encRVal]
+        conv => arg 1; intro p'; rhs; rw [List.append_cons]
+        exact ih _ _ _ f (by simp only [List.length_drop]; omega) hf'
+      simp only [c15, if_false]
+      by_cases c0 : v = 0
+      · simp only [c0, if_true, List.map_nil, List.append_nil]
+        exact ⟨_, rfl⟩
+      simp only [c0, if_false]
+      exact ih _ _ _ f (by simp only [List.length_drop]; omega) hf'
+
+theorem gen_parse_recover_binary_proof (fuel : Nat) (data : Bytes) (h : data.length < fuel) :
+    Gen.PyBeacon.parse_recover_binary fuel (.bytes data) = .ok (.list ((C03.parseRecover data).map encROut)) := by
+  obtain ⟨p', hp'⟩ := gen_parse_recover_binary_loop data.length [] data [] fuel (Nat.le_refl _) h
+  simp only [Gen.PyBeacon.parse_recover_binary, newBytesIO_bytes, PyRt.ok_bind, hp', pure_ok, List.nil_append]
+
+/-! ### parse_transform_binary -/
+
+theorem tsv_more : C03.tsv "URI_APPEND" = some 12 ∧ C03.tsv "_HEADER" = some 10 ∧ C03.tsv "HEADER" = some 6 ∧
+    C03.tsv "PARAMETER" = some 5 ∧ C03.tsv "_PARAMETER" = some 9 ∧ C03.tsv "_HOSTHEADER" = some 16 := by decide
+
+/-- the value of `ENABLE_STEPS` / `ARGUMENT_STEPS` -/
+def tsList (vals : List Nat) : V := .list (vals.map fun (k : Nat) => .enum Gen.PyBeacon.TransformStep (k : Int))
+
+/-- the value of `BUILD_MAP` -/
+def buildMapV (build : String) : V := .dict [.int 0, .int 1] [lit build, lit "output"]
+
+theorem mkDict_build (build : String) :
+    mkDict [(.int 0, lit build), (.int 1, lit "output")] = .ok (buildMapV build) := by
+  simp [mkDict, dictInsert, findKey, keyEq, hashable, PyU.eq, buildMapV, lit]
+
+theorem buildMap_get (build : String) (b : Nat) :
+    dictGet (buildMapV build) (.int (b : Int)) (lit "UNKNOWN BUILD ARG") = .ok (lit (C03.buildMap build b)) := by
+  simp only [dictGet, buildMapV, hashable, if_true, findKey, keyEq, PyU.eq, Bool.and_true, C03.buildMap]
+  by_cases h0 : b = 0
+  · subst h0; simp
+  · by_cases h1 : b = 1
+    · subst h1; simp
+    · have e0 : ((b : Int) == 0) = false := by simp; omega
+      have e1 : ((b : Int) == 1) = false := by simp; omega
+      simp [e0, e1, h0, h1]
+
+theorem eq_enum_ts (a b : Nat) :
+    PyU.eq (.enum Gen.PyBeacon.TransformStep (a : Int)) (.enum Gen.PyBeacon.TransformStep (b : Int)) = (a == b) := by
+  simp only [PyU.eq, beq_self_eq_true, Bool.true_and, int_beq_nat]
+
+theorem contains_tsList (vals : List Nat) (v : Nat) :
+    contains (tsList vals) (.enum Gen.PyBeacon.TransformStep (v : Int)) = .ok ((vals.map some).contains (some v)) := by
+  simp only [contains, tsList]
+  congr 1
+  induction vals with
+  | nil => rfl
+  | cons k ks ih =>
+    simp only [List.map_cons, List.any_cons, ih, List.contains_cons, eq_enum_ts, Option.some_beq_some]
+
+theorem enumCall_ts_int (v : Int) :
+    enumCall Gen.PyBeacon.TransformStep (.int v) = .ok (.enum Gen.PyBeacon.TransformStep v) := rfl
+
+theorem getAttr_name_ts (v : Nat) :
+    getAttr (.enum Gen.PyBeacon.TransformStep (v : Int)) "name"
+      = .ok (encOptStr (C03.enumName Gen.Beacon.transformStep v)) := by
+  have h : ¬ ((v : Int) < 0) := by omega
+  simp only [getAttr, beq_self_eq_true, if_true, h, if_false, Int.toNat_natCast, C03.enumName, Gen.PyBeacon.TransformStep]
+  cases List.find? (fun x => x.1 == v) Gen.Beacon.transformStep <;> rfl
+
+theorem len_bytes (b : Bytes) : PyU.len (.bytes b) = .ok (.int (b.length : Int)) := rfl
+
+theorem eq_int_nat (a b : Nat) : PyU.eq (.int (a : Int)) (.int (b : Int)) = (a == b) := by
+  simp only [PyU.eq, int_beq_nat]
+
+theorem eq_int_4 (a : Nat) : PyU.eq (.int (a : Int)) (.int 4) = (a == 4) := eq_int_nat a 4
+theorem eq_int_0 (a : Nat) : PyU.eq (.int (a : Int)) (.int 0) = (a == 0) := eq_int_nat a 0
+
+theorem isNone_enum (c : EnumCls) (v : Int) : isNone (.enum c v) = false := rfl
+
+theorem gen_parse_transform_binary_loop (build : String) (n : Nat) : ∀ (pre s : Bytes) (acc : List V) (fuel : Nat),
+    s.length ≤ n → n < fuel →
+    ∃ p', whileFuel fuel
+        (Gen.PyBeacon.parse_transform_binary_loop1 (tsList [3, 13, 8, 11, 12, 4, 15]) (tsList [10, 6, 5, 9, 16, 1, 2])
+          (buildMapV build)) (.list acc, mk pre s)
+      = .ok (.list (acc ++ (C03.parseTransform build s).map encTOut), p') := by
+  have mB := enumMember_ts _ _ C03.tsv_build
+  induction n with
+  | zero =>
+    intro pre s acc fuel h hf
+    obtain ⟨f, rfl⟩ : ∃ f, fuel = f + 1 := ⟨fuel - 1, by omega⟩
+    have hs : s = [] := List.eq_nil_of_length_eq_zero (by omega)
+    subst hs
+    rw [whileFuel, Gen.PyBeacon.parse_transform_binary_loop1, C03.parseTransform]
+    simp [read_mk, rdInt4, u32be_bytes, len_bytes, pure_ok, PyU.eq]
+  | succ n ih =>
+    intro pre s acc fuel h hf
+    obtain ⟨f, rfl⟩ : ∃ f, fuel = f + 1 := ⟨fuel - 1, by omega⟩
+    have hf' : n < f := by omega
+    rw [whileFuel, Gen.PyBeacon.parse_transform_binary_loop1, C03.parseTransform]
+    simp only [read_mk, rdInt4, PyRt.ok_bind, u32be_bytes, len_bytes, eq_int_4, eq_int_0, beq_iff_eq, Bool.or_eq_true,
+      Bool.not_eq_true', beq_eq_false_iff_ne, ne_eq, enumCall_ts_int, getAttr_name_ts, isNone_enum, Bool.false_eq_true, if_false,
+      mB, eq_enum_ts, contains_tsList, buildMap_get, append_list, rdInt_nat, pure_ok, C03.tsv_build, C03.enableVals_eq,
+      C03.argVals_eq, Option.some_beq_some]
+    simp only [List.map_cons, List.map_nil]
+    by_cases c0 : ¬(List.take 4 s).length = 4 ∨ C03.u32be (List.take 4 s) = 0
+    · simp only [c0, if_true, dite_true, List.map_nil, List.append_nil]
+      exact ⟨_, rfl⟩
+    have hl : 4 ≤ s.length := by
+      have : (List.take 4 s).length = 4 := by
+        false_or_by_contra; rename_i hh; exact c0 (Or.inl hh)
+      simp only [List.length_take] at this
+      omega
+    simp only [c0, if_false, dite_false]
+    generalize C03.u32be (List.take 4 s) = v
+    by_cases c7 : v = 7
+    · simp only [c7, if_true]
+      simp only [List.map_cons, encTOut, encTVal]
+      conv => arg 1; intro p'; rhs; rw [List.append_cons]
+      exact ih _ _ _ f (by simp only [List.length_drop]; omega) hf'
+    simp only [c7, if_false]
+    by_cases cE : [some 3, some 13, some 8, some 11, some 12, some 4, some 15].contains (some v) = true
+    · simp only [cE, if_true]
+      simp only [List.map_cons, encTOut, encTVal]
+      conv => arg 1; intro p'; rhs; rw [List.append_cons]
+      exact ih _ _ _ f (by simp only [List.length_drop]; omega) hf'
+    simp only [cE, Bool.false_eq_true, if_false]
+    by_cases cA : [some 10, some 6, some 5, some 9, some 16, some 1, some 2].contains (some v) = true
+    · simp only [cA, if_true]
+      simp only [List.map_cons, encTOut, encTVal]
+      conv => arg 1; intro p'; rhs; rw [List.append_cons]
+      exact ih _ _ _ f (by simp only [List.length_drop]; omega) hf'
+    simp only [cA, Bool.false_eq_true, if_false]
+    exact ih _ _ _ f (by simp only [List.length_drop]; omega) hf'
+
+/-- the part of `parse_transform_binary` before the loop -/
+theorem gen_parse_transform_binary_proof (fuel : Nat) (data : Bytes) (build : String) (h : data.length < fuel) :
+    Gen.PyBeacon.parse_transform_binary fuel (.bytes data) (lit build)
+      = .ok (.list ((C03.parseTransform build data).map encTOut)) := by
+  obtain ⟨a1, a2, a3, a4, a8, a11, a13, a15⟩ := C03.tsv_vals
+  obtain ⟨b12, b10, b6, b5, b9, b16⟩ := tsv_more
+  obtain ⟨p', hp'⟩ := gen_parse_transform_binary_loop build data.length [] data [] fuel (Nat.le_refl _) h
+  simp only [tsList, List.map_cons, List.map_nil] at hp'
+  simp only [Gen.PyBeacon.parse_transform_binary, enumMember_ts _ _ a1, enumMember_ts _ _ a2, enumMember_ts _ _ a3,
+    enumMember_ts _ _ a4, enumMember_ts _ _ a8, enumMember_ts _ _ a11, enumMember_ts _ _ a13, enumMember_ts _ _ a15,
+    enumMember_ts _ _ b12, enumMember_ts _ _ b10, enumMember_ts _ _ b6, enumMember_ts _ _ b5, enumMember_ts _ _ b9,
+    enumMember_ts _ _ b16, PyRt.ok_bind, mkDict_build, newBytesIO_bytes, hp', pure_ok, List.nil_append]
+
+/-! ### parse_execute_list -/
+
+theorem utf8_eq_aux (n : Nat) : ∀ s : Bytes, s.length ≤ n → PyU.utf8 s = C03.utf8Decode s := by
+  induction n with
+  | zero =>
+    intro s h
+    have : s = [] := List.eq_nil_of_length_eq_zero (by omega)
+    subst this
+    rw [PyU.utf8.eq_def, C03.utf8Decode.eq_def]
+  | succ n ih =>
+    intro s h
+    match s, h with
+    | [], _ => rw [PyU.utf8.eq_def, C03.utf8Decode.eq_def]
+    | [b0], _ =>
+      rw [PyU.utf8.eq_def, C03.utf8Decode.eq_def]
+      simp only [ih [] (by simp), PyU.isCont, C03.isCont]
+      try rfl
+    | [b0, b1], h =>
+      rw [PyU.utf8.eq_def, C03.utf8Decode.eq_def]
+      simp only [ih [b1] (by simp at h ⊢; omega), ih [] (by simp), PyU.isCont, C03.isCont]
+      try rfl
+    | [b0, b1, b2], h =>
+      rw [PyU.utf8.eq_def, C03.utf8Decode.eq_def]
+      simp only [ih [b1, b2] (by simp at h ⊢; omega), ih [b2] (by simp at h ⊢; omega), ih [] (by simp), PyU.isCont,
+        C03.isCont]
+      try rfl
+    | b0 :: b1 :: b2 :: b3 :: r, h =>
+      rw [PyU.utf8.eq_def, C03.utf8Decode.eq_def]
+      simp only [ih (b1 :: b2 :: b3 :: r) (by simp at h ⊢; omega), ih (b2 :: b3 :: r) (by simp at h ⊢; omega),
+        ih (b3 :: r) (by simp at h ⊢; omega), ih r (by simp at h ⊢; omega), PyU.isCont, C03.isCont]
+      try rfl
+
+theorem utf8_eq (s : Bytes) : PyU.utf8 s = C03.utf8Decode s := utf8_eq_aux s.length s (Nat.le_refl _)
+
+theorem enumMember_ie (n : String) (v : Nat) (h : C03.iev n = some v) :
+    enumMember Gen.PyBeacon.InjectExecutor n = .ok (.enum Gen.PyBeacon.InjectExecutor v) := by
+  simp only [C03.iev, C03.enumVal] at h
+  simp only [enumMember, Gen.PyBeacon.InjectExecutor]
+  cases hf : List.find? (fun x => x.2 == n) Gen.Beacon.injectExecutor with
+  | none => rw [hf] at h; simp at h
+  | some m => rw [hf] at h; simp at h; simp [h]
+
+theorem getAttr_name_ie (v : Nat) :
+    getAttr (.enum Gen.PyBeacon.InjectExecutor (v : Int)) "name"
+      = .ok (encOptStr (C03.enumName Gen.Beacon.injectExecutor v)) := by
+  have h : ¬ ((v : Int) < 0) := by omega
+  simp only [getAttr, beq_self_eq_true, if_true, h, if_false, Int.toNat_natCast, C03.enumName, Gen.PyBeacon.InjectExecutor]
+  cases List.find? (fun x => x.1 == v) Gen.Beacon.injectExecutor <;> rfl
+
+theorem enumCall_ie_byte (b : UInt8) :
+    enumCall Gen.PyBeacon.InjectExecutor (.bytes [b]) = .ok (.enum Gen.PyBeacon.InjectExecutor (b.toNat : Int)) := by
+  simp [enumCall, Gen.PyBeacon.InjectExecutor, beNat]
+
+theorem eq_enum_ie (a b : Nat) :
+    PyU.eq (.enum Gen.PyBeacon.InjectExecutor (a : Int)) (.enum Gen.PyBeacon.InjectExecutor (b : Int)) = (a == b) := by
+  simp only [PyU.eq, beq_self_eq_true, Bool.true_and, int_beq_nat]
+
+theorem rstrip_nul (x : Bytes) : rstrip (.bytes x) (.bytes [0]) = .ok (.bytes (C03.rstripNul x)) := by
+  simp only [rstrip, rstripL, C03.rstripNul]
+  congr 4
+  funext c
+  simp [BEq.beq]
+
+theorem rstrip_underscore (n : String) :
+    rstrip (lit n) (lit "_") = .ok (.str (C03.rstripUnderscore (C03.strCps n))) := by
+  have : cps "_" = [95] := by decide
+  simp only [rstrip, lit, rstripL, C03.rstripUnderscore, C03.strCps, this]
+  congr 4
+  funext c
+  simp [BEq.beq]
+
+theorem rstrip_none (c : V) : rstrip .none c = .error .attributeError := rfl
+
+theorem decodeUtf8_bytes (b : Bytes) : decodeUtf8 (.bytes b) = (C03.utf8Decode b).map .str := by
+  simp [decodeUtf8, utf8_eq]
+
+theorem fmt_str (t : PyRt.Str) : fmt (.str t) "" = .ok t := by simp [fmt]
+
+theorem truthy_int_nat (n : Nat) : truthy (.int (n : Int)) = (n != 0) := by
+  show ((n : Int) != ((0 : Nat) : Int)) = (n != 0)
+  simp only [bne, int_beq_nat]
+
+theorem iadd_str (a b : PyRt.Str) : iadd (.str a) (.str b) = .ok (.str (a ++ b)) := rfl
+
+/-- first component of a loop result -/
+def fstOk (r : Py (V × V)) : Py V := r.map Prod.fst
+
+theorem fstOk_error (e : PyExc) : fstOk (.error e) = .error e := rfl
+theorem fstOk_ok (a b : V) : fstOk (.ok (a, b)) = .ok a := rfl
+
+theorem gen_parse_execute_list_loop (n : Nat) : ∀ (pre s : Bytes) (acc : List V) (fuel : Nat),
+    s.length ≤ n → n < fuel →
+    fstOk (whileFuel fuel Gen.PyBeacon.parse_execute_list_loop1 (.list acc, mk pre s))
+      = (C03.parseExecute s).map fun l => .list (acc ++ l.map encEx) := by
+  obtain ⟨i6, i7⟩ := C03.iev_vals
+  have m6 := enumMember_ie _ _ i6
+  have m7 := enumMember_ie _ _ i7
+  induction n with
+  | zero =>
+    intro pre s acc fuel h hf
+    obtain ⟨f, rfl⟩ : ∃ f, fuel = f + 1 := ⟨fuel - 1, by omega⟩
+    have hs : s = [] := List.eq_nil_of_length_eq_zero (by omega)
+    subst hs
+    rw [whileFuel, Gen.PyBeacon.parse_execute_list_loop1, C03.parseExecute]
+    simp [read_mk, rdInt1, truthy, pure_ok, fstOk, Except.map]
+  | succ n ih =>
+    intro pre s acc fuel h hf
+    obtain ⟨f, rfl⟩ : ∃ f, fuel = f + 1 := ⟨fuel - 1, by omega⟩
+    have hf' : n < f := by omega
+    cases s with
+    | nil =>
+      rw [whileFuel, Gen.PyBeacon.parse_execute_list_loop1, C03.parseExecute]
+      simp [read_mk, rdInt1, truthy, pure_ok, fstOk, Except.map]
+    | cons b s1 =>
+      have hl : s1.length ≤ n := by simpa using h
+      rw [whileFuel, Gen.PyBeacon.parse_execute_list_loop1, C03.parseExecute]
+      simp only [read_mk, rdInt1, List.take_succ_cons, List.take_zero, List.drop_succ_cons, List.drop_zero, PyRt.ok_bind, truthy_bytes,
+        List.isEmpty_cons, Bool.not_false, Bool.not_true, Bool.false_or]
+      have eb : PyU.eq (V.bytes [b]) (V.bytes [0]) = (b == 0) := by simp [PyU.eq]
+      simp only [eb, beq_iff_eq]
+      by_cases hb : b = 0
+      · simp only [hb, if_true, pure_ok, fstOk_ok, Except.map, List.map_nil, List.append_nil]
+      simp only [hb, if_false, enumCall_ie_byte, m6, m7, PyRt.ok_bind, contains, List.any_cons, List.any_nil, eq_enum_ie,
+        Bool.or_false, i6, i7, Option.some_beq_some]
+      by_cases hc : (b.toNat == 6 || b.toNat == 7) = true
+      · have q1 : cps " \"" = [32, 34] := by decide
+        have q2 : cps "!" = [33] := by decide
+        have q3 : cps "\"" = [34] := by decide
+        simp only [hc, if_true, rdInt2, rdInt4, u16be_bytes, u32be_bytes, PyRt.ok_bind, read_mk, rdInt_nat, rstrip_nul,
+          decodeUtf8_bytes, truthy_int_nat, getAttr_name_ie]
+        have hl5 : (List.drop (C03.u32be (List.take 4 (List.drop (C03.u32be (List.take 4 (List.drop 2 s1)))
+            (List.drop 4 (List.drop 2 s1))))) (List.drop 4 (List.drop (C03.u32be (List.take 4 (List.drop 2 s1)))
+            (List.drop 4 (List.drop 2 s1))))).length ≤ n := by
+          simp only [List.length_drop]; omega
+        generalize (List.drop (C03.u32be (List.take 4 (List.drop (C03.u32be (List.take 4 (List.drop 2 s1)))
+            (List.drop 4 (List.drop 2 s1))))) (List.drop 4 (List.drop (C03.u32be (List.take 4 (List.drop 2 s1)))
+            (List.drop 4 (List.drop 2 s1))))) = t5 at hl5 ⊢
+        generalize C03.rstripNul (List.take (C03.u32be (List.take 4 (List.drop 2 s1))) (List.drop 4 (List.drop 2 s1))) = M
+        generalize C03.rstripNul (List.take (C03.u32be (List.take 4 (List.drop (C03.u32be (List.take 4 (List.drop 2 s1)))
+            (List.drop 4 (List.drop 2 s1))))) (List.drop 4 (List.drop (C03.u32be (List.take 4 (List.drop 2 s1)))
+            (List.drop 4 (List.drop 2 s1))))) = F
+        generalize C03.u16be (List.take 2 s1) = s4
+        cases C03.utf8Decode M with
+        | error e => rfl
+        | ok ms =>
+          cases C03.utf8Decode F with
+          | error e => rfl
+          | ok fs =>
+            simp only [Except.map, PyRt.ok_bind, fmt_str]
+            cases C03.enumName Gen.Beacon.injectExecutor b.toNat with
+            | none =>
+              by_cases h4 : s4 = 0
+              · subst h4; rfl
+              · have : (s4 != 0) = true := by simpa using h4
+                simp only [this, if_true, fmt_x_nat, PyRt.ok_bind, iadd_str, encOptStr, rstrip_none, PyRt.error_bind]
+                rfl
+            | some nm =>
+              by_cases h4 : s4 = 0
+              · subst h4
+                simp only [bne_self_eq_false, Bool.false_eq_true, if_false, encOptStr, rstrip_underscore, PyRt.ok_bind, fmt_str,
+                  append_list, pure_ok, ne_eq, not_true_eq_false, List.append_nil]
+                rw [ih _ _ _ f hl5 hf']
+                cases C03.parseExecute t5 with
+                | error e => rfl
+                | ok rest =>
+                  simp only [Except.map, List.map_cons, List.append_assoc, List.cons_append, List.nil_append, encEx, q1, q2, q3]
+              · have : (s4 != 0) = true := by simpa using h4
+                simp only [this, if_true, fmt_x_nat, PyRt.ok_bind, iadd_str, encOptStr, rstrip_underscore, fmt_str,
+                  append_list, pure_ok, ne_eq, h4, not_false_eq_true]
+                rw [ih _ _ _ f hl5 hf']
+                cases C03.parseExecute t5 with
+                | error e => rfl
+                | ok rest =>
+                  have hsc : C03.strCps ("+0x" ++ C03.hexStr s4) = cps "+0x" ++ cps (C03.hexStr s4) := cps_append _ _
+                  simp only [Except.map, List.map_cons, List.append_assoc, List.cons_append, List.nil_append, encEx, q1, q2, q3,
+                    hsc]
+      · simp only [hc, Bool.false_eq_true, if_false, getAttr_name_ie, PyRt.ok_bind, append_list, pure_ok]
+        rw [ih _ _ _ f hl hf']
+        cases C03.parseExecute s1 with
+        | error e => rfl
+        | ok rest =>
+          simp only [Except.map, List.map_cons, List.append_assoc, List.cons_append, List.nil_append]
+          cases C03.enumName Gen.Beacon.injectExecutor b.toNat <;> rfl
+
+theorem bind_fst (r : Py (V × V)) : (r >>= fun t => (pure t.1 : Py V)) = fstOk r := by
+  cases r <;> rfl
+
+theorem gen_parse_execute_list_proof (fuel : Nat) (data : Bytes) (h : data.length < fuel) :
+    Gen.PyBeacon.parse_execute_list fuel (.bytes data)
+      = (C03.parseExecute data).map fun l => .list (l.map encEx) := by
+  have := gen_parse_execute_list_loop data.length [] data [] fuel (Nat.le_refl _) h
+  simp only [List.nil_append] at this
+  rw [← this]
+  simp only [Gen.PyBeacon.parse_execute_list, newBytesIO_bytes, PyRt.ok_bind]
+  exact bind_fst _
 
 end C03Gen
